@@ -7,11 +7,11 @@
 
 Contract (MANIFEST): exit 0 = held on everything explored; exit 1 + a line
 "VIOLATION property=C08 replay=<path>" = a schedule on which a call's run-time bits depend on
-history; exit 2 = the harness itself could not run or could not reproduce its own finding
-(never reported as a violation).  Rebuilds from the current working tree of /repo
+history or on interleaving; exit 2 = the harness itself could not run or could not reproduce its
+own finding (never reported as a violation).  Rebuilds from the current working tree of /repo
 (VERIF_REPO overrides, for scratch worktrees).  Writes evidence/C08.json on every run.
 """
-import argparse, json, os, shutil, subprocess, sys, time
+import argparse, json, os, subprocess, sys, time
 from concurrent.futures import ThreadPoolExecutor
 
 HERE = os.path.dirname(os.path.abspath(__file__))
@@ -22,40 +22,58 @@ PROPERTY = "C08"
 EVIDENCE = os.path.join(VERIF, "evidence", PROPERTY + ".json")
 REPLAYS = os.path.join(VERIF, "sim", "replays")
 KNOWN = os.path.join(VERIF, "known_findings.json")
-
-CELLS = {
-    "quick": [("g++", "-O2", "-std=c++20", [])],
-    "thorough": [("g++", "-O2", "-std=c++20", []),
-                 ("clang++", "-O2", "-std=c++17", []),
-                 ("g++", "-O0", "-std=c++17", ["-DFIXEDMATH_ENABLE_SQRT_ABACUS_ALGO"]),
-                 ("clang++", "-O1", "-std=c++20", [])],
-}
-RUNS_PER_WORKER = {"quick": 3000, "thorough": 60000}
 WORKERS = min(16, os.cpu_count() or 4)
 
+# (compiler, -O, -std, extra defines, instrumented-with-yield-points?)
+G20 = ("g++", "-O2", "-std=c++20", [])
+C17 = ("clang++", "-O2", "-std=c++17", [])
+G17A = ("g++", "-O0", "-std=c++17", ["-DFIXEDMATH_ENABLE_SQRT_ABACUS_ALGO"])
+C20 = ("clang++", "-O1", "-std=c++20", [])
+TIERS = {
+    # (cell, mode, runs per worker)
+    "quick": [(G20, "serial", 2000), (G20, "fine", 500)],
+    "thorough": [(G20, "serial", 40000), (C17, "serial", 40000), (G17A, "serial", 40000), (C20, "serial", 40000),
+                 (G20, "fine", 12000), (C17, "fine", 12000), (G17A, "fine", 12000)],
+}
 
-def cell_name(c):
-    return " ".join([c[0], c[1], c[2]] + c[3])
+
+def cell_name(c, mode):
+    return " ".join([c[0], c[1], c[2]] + c[3]) + (" +yield" if mode == "fine" else "")
 
 
-def build(cell, idx):
+def sh(cmd):
+    return subprocess.run(cmd, stdout=subprocess.PIPE, stderr=subprocess.PIPE, text=True)
+
+
+def build(cell, mode, tag):
+    """plain: everything uninstrumented.  fine: ops.cc + /repo's fixed_math.cc compiled with -fsanitize=thread
+    (compile only) and linked against sim/tsan_shim.cc instead of the TSan runtime."""
     os.makedirs(BUILD, exist_ok=True)
-    out = os.path.join(BUILD, f"hsim_{idx}")
-    cmd = [cell[0], cell[2], cell[1], "-w", "-pthread", f'-DHSIM_BUILD_CELL="{cell_name(cell)}"'] + cell[3] + [
-        "-I" + os.path.join(REPO, "fixed_lib/include"), os.path.join(HERE, "hsim.cc"),
-        os.path.join(REPO, "fixed_lib/src/fixed_math.cc"), "-o", out]
-    r = subprocess.run(cmd, stdout=subprocess.PIPE, stderr=subprocess.PIPE, text=True)
-    if r.returncode != 0:
-        first = next((l for l in r.stderr.split("\n") if "error" in l), r.stderr[:400])
-        print(f"check.py: cannot build the simulator for [{cell_name(cell)}]: {first.strip()}", file=sys.stderr)
-        print("check.py: harness failure (public API changed? update sim/hsim.cc); this is not a verdict", file=sys.stderr)
-        sys.exit(2)
+    out = os.path.join(BUILD, f"hsim_{tag}")
+    inc = "-I" + os.path.join(REPO, "fixed_lib/include")
+    lib = os.path.join(REPO, "fixed_lib/src/fixed_math.cc")
+    name = f'-DHSIM_BUILD_CELL="{cell_name(cell, mode)}"'
+    base = [cell[0], cell[2], cell[1], "-w", "-pthread"] + cell[3]
+    if mode == "serial":
+        cmds = [base + [name, inc, "-I" + HERE, os.path.join(HERE, "hsim.cc"), os.path.join(HERE, "ops.cc"), lib, "-o", out]]
+    else:
+        o1, o2 = out + "_ops.o", out + "_lib.o"
+        cmds = [base + ["-fsanitize=thread", inc, "-I" + HERE, "-c", os.path.join(HERE, "ops.cc"), "-o", o1],
+                base + ["-fsanitize=thread", inc, "-c", lib, "-o", o2],
+                [cell[0], cell[2], "-O2", "-w", "-pthread", name, "-DHSIM_INSTRUMENTED=1", "-I" + HERE, os.path.join(HERE, "hsim.cc"),
+                 os.path.join(HERE, "tsan_shim.cc"), o1, o2, "-ldl", "-o", out]]
+    for cmd in cmds:
+        r = sh(cmd)
+        if r.returncode != 0:
+            first = next((l for l in r.stderr.split("\n") if "error" in l or "undefined" in l), r.stderr[:400])
+            print(f"check.py: cannot build the simulator for [{cell_name(cell, mode)}]: {first.strip()}", file=sys.stderr)
+            print("check.py: harness failure (public API changed? update sim/ops.cc); this is not a verdict", file=sys.stderr)
+            sys.exit(2)
     return out
 
 
-def scan(binary, seed0, count, hashfile):
-    r = subprocess.run([binary, "--scan", str(seed0), str(count), "--hashes", hashfile, "--max-findings", "2"],
-                       stdout=subprocess.PIPE, stderr=subprocess.PIPE, text=True)
+def scan(binary, mode, seed0, count, hashfile):
+    r = sh([binary, "--scan", str(seed0), str(count), "--mode", mode, "--hashes", hashfile, "--max-findings", "2"])
     found, stats, unstable = [], None, []
     for line in r.stdout.split("\n"):
         if line.startswith("FOUND "):
@@ -67,9 +85,20 @@ def scan(binary, seed0, count, hashfile):
     return r.returncode, found, stats, unstable, r.stderr
 
 
-def exec_schedule(binary, clients, steps):
-    text = f"clients {clients}\n" + "".join(f"{s['client']} {s['op']} {s['a'][2:]} {s['b'][2:]}\n" for s in steps)
-    r = subprocess.run([binary, "--exec"], input=text, stdout=subprocess.PIPE, stderr=subprocess.PIPE, text=True)
+def schedule_text(f):
+    t = [f"clients {f['clients']}"]
+    for seg in f["segments"]:
+        t.append("seg")
+        for c in seg["calls"]:
+            t.append(f"call {c['client']} {c['op']} {c['a'][2:]} {c['b'][2:]}")
+        for w in seg.get("script", []):
+            t.append(f"sw {w['from']} {w['at_yield']} {w['to']}")
+    t.append(f"victim {f['victim']['segment']} {f['victim']['call']}")
+    return "\n".join(t) + "\n"
+
+
+def exec_schedule(binary, f):
+    r = subprocess.run([binary, "--exec"], input=schedule_text(f), stdout=subprocess.PIPE, stderr=subprocess.PIPE, text=True)
     for line in r.stdout.split("\n"):
         if line.startswith("EXEC "):
             return json.loads(line[5:])
@@ -77,13 +106,21 @@ def exec_schedule(binary, clients, steps):
 
 
 def describe(f):
-    def call(s):
-        return f"c{s['client']}:{s['op']}({s['a']},{s['b']})"
-    return " ; ".join(call(s) for s in f["steps"])
+    parts = []
+    for seg in f["segments"]:
+        calls = " || ".join(f"c{c['client']}:{c['op']}({c['a']}{',' + c['b'] if int(c['b'], 16) else ''})" for c in seg["calls"])
+        sw = [w for w in seg.get("script", []) if w["from"] != 255 and w["at_yield"] >= 0]
+        if len(seg["calls"]) > 1:
+            calls = "{ " + calls + " }" + (" preempt[" + ", ".join(f"c{w['from']}@{w['at_yield']}->c{w['to']}" for w in sw) + "]" if sw else "")
+        parts.append(calls)
+    v = f["segments"][f["victim"]["segment"]]["calls"][f["victim"]["call"]]
+    return " ; ".join(parts) + f"   victim=c{v['client']}:{v['op']}"
 
 
 def finding_key(f):
-    return {"property": PROPERTY, "victim_op": f["steps"][-1]["op"], "polluting_ops": sorted({s["op"] for s in f["steps"][:-1]})}
+    v = f["segments"][f["victim"]["segment"]]["calls"][f["victim"]["call"]]
+    others = sorted({c["op"] for s in f["segments"] for c in s["calls"] if c is not v})
+    return {"property": PROPERTY, "mode": f["mode"], "victim_op": v["op"], "other_ops": others}
 
 
 def load_known():
@@ -103,36 +140,41 @@ def write_evidence(tier, seed, cov, wall, violations, assumptions):
         json.dump(ev, f, indent=1)
 
 
+SUMMED = ["runs", "calls", "forks", "nontrivial_runs", "isolation_checks", "disagreements", "signals_caught", "items_lost",
+          "hung_children", "unstable", "fine_executions", "concurrent_segments", "concurrent_calls", "yield_points",
+          "preemptions", "baton_handoffs"]
+
+
 def run_check(tier, seed):
     t0 = time.time()
-    cells = CELLS[tier]
-    per = RUNS_PER_WORKER[tier]
-    if os.environ.get("VERIF_RUNS_PER_WORKER"):
-        per = int(os.environ["VERIF_RUNS_PER_WORKER"])
-    with ThreadPoolExecutor(max_workers=len(cells)) as ex:
-        bins = list(ex.map(lambda ic: build(ic[1], ic[0]), enumerate(cells)))
+    plan = TIERS[tier]
+    scale = float(os.environ.get("VERIF_RUNS_SCALE", "1"))
+    with ThreadPoolExecutor(max_workers=len(plan)) as ex:
+        bins = list(ex.map(lambda ip: build(ip[1][0], ip[1][1], f"{ip[0]}_{ip[1][1]}"), enumerate(plan)))
     t_build = time.time() - t0
     base = (seed % 1000003) * 10**10
     jobs = []
-    for ci, b in enumerate(bins):
+    for ci, ((cell, mode, per), b) in enumerate(zip(plan, bins)):
+        per = max(1, int(per * scale))
         for w in range(WORKERS):
-            jobs.append((ci, b, base + ci * 10**9 + w * per, per, os.path.join(BUILD, f"hashes_{ci}_{w}.bin")))
+            jobs.append(dict(ci=ci, cell=cell_name(cell, mode), mode=mode, bin=b, seed0=base + ci * 10**9 + w * per, count=per,
+                             hashes=os.path.join(BUILD, f"hashes_{ci}_{w}.bin")))
     t1 = time.time()
     with ThreadPoolExecutor(max_workers=WORKERS) as ex:
-        results = list(ex.map(lambda j: scan(j[1], j[2], j[3], j[4]), jobs))
+        results = list(ex.map(lambda j: scan(j["bin"], j["mode"], j["seed0"], j["count"], j["hashes"]), jobs))
     t_scan = time.time() - t1
-    total = dict(runs=0, calls=0, forks=0, nontrivial_runs=0, isolation_checks=0, ab_disagreements=0, signals_caught=0,
-                 items_lost=0)
+    total = {k: 0 for k in SUMMED}
+    by_mode = {"serial": {k: 0 for k in SUMMED}, "fine": {k: 0 for k in SUMMED}}
     per_op, clients_hist = {}, [0, 0, 0, 0]
     alias_same, alias_cross, adjacency = {}, {}, set()
     per_cell = {}
     found, unstable, samples = [], [], []
     for j, (rc, fnd, st, uns, err) in zip(jobs, results):
         if st is None:
-            print(f"check.py: worker for seed0={j[2]} on [{cell_name(cells[j[0]])}] produced no STATS (rc={rc}): {err[:300]}", file=sys.stderr)
+            print(f"check.py: worker seed0={j['seed0']} on [{j['cell']}] produced no STATS (rc={rc}): {err[:300]}", file=sys.stderr)
             sys.exit(2)
-        for k in total:
-            total[k] += st[k]
+        for k in SUMMED:
+            total[k] += st[k]; by_mode[j["mode"]][k] += st[k]
         for k, v in st["per_op"].items():
             per_op[k] = per_op.get(k, 0) + v
         for i in range(4):
@@ -142,56 +184,61 @@ def run_check(tier, seed):
         for k, v in st["alias_cross_client"].items():
             alias_cross[k] = alias_cross.get(k, 0) + v
         adjacency.update(st["adjacency_keys"])
-        pc = per_cell.setdefault(cell_name(cells[j[0]]), dict(runs=0, calls=0, digest=0))
+        pc = per_cell.setdefault(j["cell"], dict(runs=0, calls=0, digest=0))
         pc["runs"] += st["runs"]; pc["calls"] += st["calls"]
         pc["digest"] = (pc["digest"] + int(st["digest"], 16)) % 2**64
-        if st.get("sample") and len(samples) < 3:
-            samples.append(dict(build=st["build"], **st["sample"]))
+        if st.get("sample") and len(samples) < 2:
+            samples.append(dict(build=st["build"], mode=st["mode"], **st["sample"]))
         for f in fnd:
-            found.append((j[1], f))
+            found.append((j["bin"], f))
         unstable += uns
     for pc in per_cell.values():
         pc["digest"] = "0x%016x" % pc["digest"]
-    merge = subprocess.run([bins[0], "--merge"] + [j[4] for j in jobs], stdout=subprocess.PIPE, text=True).stdout
-    distinct = json.loads(merge.split("MERGE ", 1)[1])["distinct"] if "MERGE " in merge else 0
+
+    def merged(mode):
+        files = [j["hashes"] for j in jobs if j["mode"] == mode]
+        if not files:
+            return 0
+        out = sh([bins[0], "--merge"] + files).stdout
+        return json.loads(out.split("MERGE ", 1)[1])["distinct"] if "MERGE " in out else 0
+    distinct_serial, distinct_fine = merged("serial"), merged("fine")
     for j in jobs:
-        if os.path.exists(j[4]):
-            os.remove(j[4])
+        if os.path.exists(j["hashes"]):
+            os.remove(j["hashes"])
     ops_total = len(per_op)
     ops_hit = sum(1 for v in per_op.values() if v > 0)
     never = sorted(k for k, v in per_op.items() if v == 0)
 
     # ---- gate every finding: it must reproduce, identically, twice, in fresh processes
     known = load_known()
-    violations, known_lines, replay_paths = 0, [], []
-    seen_keys = []
+    violations, known_lines, replay_paths, seen_keys = 0, [], [], []
     for binary, f in found:
         key = finding_key(f)
         if key in seen_keys:
             continue
         seen_keys.append(key)
-        e1 = exec_schedule(binary, f["clients"], f["steps"])
-        e2 = exec_schedule(binary, f["clients"], f["steps"])
+        e1, e2 = exec_schedule(binary, f), exec_schedule(binary, f)
         ok = (e1 and e2 and e1["differs"] and e2["differs"] and e1["observed"] == e2["observed"] == f["observed"]
               and e1["isolated"] == e2["isolated"] == f["isolated"])
         if not ok:
             print(f"check.py: finding at seed {f['seed']} did not reproduce identically in fresh processes "
                   f"(recorded {f['observed']}, replays {e1 and e1['observed']} / {e2 and e2['observed']}); "
                   "harness fault, not reported as a violation", file=sys.stderr)
-            write_evidence(tier, seed, dict(evaluations=max(1, total["runs"]), distinct_nontrivial=max(2, distinct),
+            write_evidence(tier, seed, dict(evaluations=max(1, total["runs"]), distinct_nontrivial=max(2, distinct_serial + distinct_fine),
                                             rule="aborted: unreproducible finding", samples=[f]), time.time() - t0, 0,
                            ["harness fault: finding not reproducible"])
             sys.exit(2)
-        if any(k.get("victim_op") == key["victim_op"] and sorted(k.get("polluting_ops", [])) == key["polluting_ops"] for k in known):
-            known_lines.append(f"KNOWN-FINDING: property={PROPERTY} {key['victim_op']} depends on earlier {','.join(key['polluting_ops'])}")
+        if any(k.get("victim_op") == key["victim_op"] and k.get("mode", key["mode"]) == key["mode"]
+               and sorted(k.get("other_ops", [])) == key["other_ops"] for k in known):
+            known_lines.append(f"KNOWN-FINDING: property={PROPERTY} {key['victim_op']} depends on concurrent/earlier {','.join(key['other_ops'])}")
             continue
         os.makedirs(REPLAYS, exist_ok=True)
-        path = os.path.join(REPLAYS, f"{PROPERTY}-{f['seed']}.json")
-        rec = dict(property=PROPERTY, what="run-time result of the last step depends on the calls before it",
-                   seed=f["seed"], verif_seed=seed, build=f["build"], clients=f["clients"], steps=f["steps"],
-                   isolated=f["isolated"], observed=f["observed"], failing_order=f["failing_order"],
-                   original_history_len=f["original_history_len"], minimise_tests=f["minimise_tests"],
-                   replay_cmd=f"python3 sim/check.py --replay {os.path.relpath(path, VERIF)}")
+        path = os.path.join(REPLAYS, f"{PROPERTY}-{f['mode']}-{f['seed']}.json")
+        rec = dict(property=PROPERTY,
+                   what=("run-time result of the victim call depends on " +
+                         ("where it (or a co-running call) is preempted while another caller is inside the library"
+                          if f["mode"] == "fine" else "the calls made before it")),
+                   verif_seed=seed, replay_cmd=f"python3 sim/check.py --replay {os.path.relpath(path, VERIF)}", **f)
         with open(path, "w") as fh:
             json.dump(rec, fh, indent=1)
         replay_paths.append((path, f))
@@ -199,24 +246,33 @@ def run_check(tier, seed):
 
     wall = time.time() - t0
     cov = {
-        "evaluations": total["runs"],
-        "distinct_nontrivial": distinct,
-        "rule": ("one evaluation = one seeded run: a plan of 6-45 public calls issued by 1-4 simulated caller threads, executed from "
-                 "pristine library state in plan order and again in reverse global order (two forked children), every call's result "
-                 "bits compared between the two histories, plus one seeded call per run (and every disagreeing call) compared with "
-                 "its isolated execution in a fresh process. A run is non-trivial when its plan contains at least one call whose "
-                 "argument was built to alias an earlier call's argument (identical, same low 32/16/48 bits, same high bits, "
-                 "xor-fold-equal, one bit flipped, negated, +k*pi, +k*2pi); distinct = distinct 64-bit hashes of "
-                 "(clients, per step: client, operation, argument bits) over all non-trivial plans, merged across workers."),
+        "evaluations": total["runs"] + total["fine_executions"],
+        "distinct_nontrivial": distinct_serial + distinct_fine,
+        "rule": ("serial mode: one evaluation = one seeded run: a plan of 6-45 public calls issued by 1-4 simulated caller threads, executed "
+                 "from pristine library state in plan order and again in reverse global order (two forked children); every call's result "
+                 "bits compared between the two histories, plus one seeded call per run (and every disagreeing call) compared with its "
+                 "isolated execution in a fresh process. fine mode: one evaluation = one execution of a seeded plan (2-4 callers) in which "
+                 "adjacent calls of distinct callers are in flight together and the seeded scheduler preempts the running caller at "
+                 "compiler-inserted yield points (every non-stack memory access of library code); compared call by call with the "
+                 "whole-call execution of the same plan, disagreements confirmed against isolation. Non-trivial: serial - the plan "
+                 "contains a call whose argument was built to alias an earlier call's argument (identical, same low 32/16/48 bits, same "
+                 "high bits, xor-fold-equal, one bit flipped, negated, +k*pi, +k*2pi); fine - the execution contains at least one "
+                 "concurrent segment. distinct = distinct 64-bit hashes of (clients, per step: client, operation, argument bits) for "
+                 "serial plans, and of (plan, segment shapes, every scheduling decision) for fine executions, merged across workers."),
         "samples": samples,
+        "distinct_nontrivial_serial_plans": distinct_serial,
+        "distinct_fine_executions_by_decision_trace": distinct_fine,
         "runs_per_hour": int(total["runs"] / max(t_scan, 1e-9) * 3600),
-        "seeds": {"verif_seed": seed, "first_run_seed": base, "runs_per_worker": per, "workers": WORKERS,
-                  "layout": "run seed = (VERIF_SEED mod 1000003)*1e10 + cell*1e9 + worker*runs_per_worker + i"},
+        "executions_per_hour": int((2 * by_mode["serial"]["runs"] + by_mode["fine"]["runs"] + total["fine_executions"]) / max(t_scan, 1e-9) * 3600),
+        "seeds": {"verif_seed": seed, "first_run_seed": base, "workers": WORKERS,
+                  "layout": "run seed = (VERIF_SEED mod 1000003)*1e10 + job*1e9 + worker*runs_per_worker + i; jobs in tier order",
+                  "jobs": [dict(cell=cell_name(c, m), mode=m, runs_per_worker=max(1, int(p * scale))) for (c, m, p) in plan]},
+        "serial_mode": {k: by_mode["serial"][k] for k in ("runs", "calls", "isolation_checks", "disagreements")},
+        "fine_mode": {k: by_mode["fine"][k] for k in ("runs", "fine_executions", "calls", "concurrent_segments", "concurrent_calls", "yield_points",
+                                                       "preemptions", "baton_handoffs", "isolation_checks", "disagreements")},
         "library_calls_executed": total["calls"],
-        "histories_executed": 2 * total["runs"],
-        "isolation_reference_executions": total["isolation_checks"],
         "processes_forked": total["forks"],
-        "simulated_time": "not applicable: the library has no clock, timer or deadline; progress is counted in calls",
+        "simulated_time": "not applicable: the library has no clock, timer or deadline; progress is counted in calls and yield points",
         "build_cells": per_cell,
         "clients_per_run_histogram": {"1": clients_hist[0], "2": clients_hist[1], "3": clients_hist[2], "4": clients_hist[3]},
         "operations_in_catalogue": ops_total, "operations_exercised": ops_hit, "operations_never_called": never,
@@ -225,79 +281,92 @@ def run_check(tier, seed):
         "aliasing_adjacencies_cross_client": alias_cross,
         "distinct_adjacency_classes": len(adjacency),
         "distinct_adjacency_classes_rule": "distinct (later op, earlier op, alias kind, same/cross client) tuples reached",
-        "history_disagreements_seen": total["ab_disagreements"],
-        "synchronous_signals_caught_identically_in_both_histories": total["signals_caught"],
+        "synchronous_signals_caught_identically": total["signals_caught"],
         "items_lost_to_child_death": total["items_lost"],
+        "hung_children": total["hung_children"],
         "fault_kinds_injected": {},
         "fault_kinds_note": ("none, deliberately: the library calls nothing that can fail (audit/seam_audit.py S2: no allocation, I/O "
-                             "or system call), so the only dimension searched is the schedule/history"),
-        "interleaving_granularity": "whole public calls; preemption inside a call is not explored (DESIGN 9.3)",
+                             "or system call), so the only dimensions searched are the call history and the interleaving"),
+        "interleaving_granularity": ("serial mode: whole public calls. fine mode: every instrumented access of library code to non-stack "
+                                     "memory (sequentially consistent interleavings only)"),
         "stateless_tree_note": ("on a tree where audit/seam_audit.py reports no seam, every schedule is observationally equivalent; the "
                                 "counts above then measure the search performed, not distinct behaviours reached"),
         "components": {"real": ["fixed_lib/include/fixedmath/* (all headers)", "fixed_lib/src/fixed_math.cc + the four tables",
-                                "libm sqrt", "caller threads (real pthreads, released one call at a time)"], "stubbed": []},
+                                "libm sqrt", "caller threads (real pthreads; exactly one holds the baton)"],
+                       "stubbed": ["fine mode only: the ThreadSanitizer runtime is replaced by sim/tsan_shim.cc (yield points; atomics really "
+                                   "performed, seq_cst); pthread_mutex_* and __cxa_guard_* are simulated while a simulated call runs"]},
         "unstable_reports": unstable,
         "timing_s": {"build": round(t_build, 2), "scan": round(t_scan, 2)},
     }
     assumptions = [
-        "decides only: run-time result bits of a public call do not depend on earlier calls or on the order in which callers' calls "
-        "reach the library (history dependence => C08 false). Blind to input-only and configuration-only defects by construction.",
+        "decides only: run-time result bits of a public call do not depend on earlier calls, on the order in which callers' calls reach the "
+        "library, or on where a caller is preempted inside a call (any such dependence => C08 false). Blind to input-only and "
+        "configuration-only defects by construction.",
         "results are compared only within one binary; cross-compiler / constexpr-vs-run-time equality on a given input is not checked",
         "fork() gives the child pristine library state (the zygote never calls the library)",
+        "fine mode explores sequentially consistent interleavings at instrumented-access granularity, not hardware reorderings",
         "known input-only traps of the unchanged tree (INT64_MIN / -1 patterns, negative table angles) are excluded from the workload",
     ]
     write_evidence(tier, seed, cov, wall, violations, assumptions)
-    print(f"hsim[{PROPERTY}] tier={tier} seed={seed}: {total['runs']} runs ({2 * total['runs']} histories, {total['calls']} calls, "
-          f"{len(cells)} build cell(s)) in {wall:.1f}s; {distinct} distinct non-trivial schedules; "
-          f"{ops_hit}/{ops_total} operations; disagreements={total['ab_disagreements']}")
+    print(f"hsim[{PROPERTY}] tier={tier} seed={seed}: serial {by_mode['serial']['runs']} runs x2 histories; fine {by_mode['fine']['fine_executions']} "
+          f"executions ({by_mode['fine']['concurrent_segments']} concurrent segments, {by_mode['fine']['yield_points']} yield points, "
+          f"{by_mode['fine']['preemptions']} preemptions); {total['calls']} calls; {len(per_cell)} build cell(s); {wall:.1f}s; "
+          f"distinct non-trivial: {distinct_serial} plans + {distinct_fine} fine executions; {ops_hit}/{ops_total} operations; "
+          f"disagreements={total['disagreements']}")
     for l in known_lines:
         print(l)
     for path, f in replay_paths:
-        print(f"  schedule: {describe(f)}  isolated={f['isolated']['bits']} observed={f['observed']['bits']}")
+        print(f"  [{f['mode']}] {describe(f)}  isolated={f['isolated']['bits']} observed={f['observed']['bits']} "
+              f"(minimised {f['original_calls']} calls/{f['original_switches']} switches -> {f['minimised_calls']}/{f['minimised_switches']} in {f['minimise_tests']} tests)")
         print(f"VIOLATION property={PROPERTY} replay={path}")
     return 1 if violations else 0
 
 
+def cell_for(build_name):
+    for c in (G20, C17, G17A, C20):
+        for m in ("serial", "fine"):
+            if cell_name(c, m) == build_name:
+                return c, m
+    return G20, "serial"
+
+
 def run_replay(path):
     rec = json.load(open(path))
-    cell = None
-    for c in CELLS["thorough"]:
-        if cell_name(c) == rec.get("build"):
-            cell = c
-    if cell is None:
-        cell = CELLS["quick"][0]
-    b = build(cell, 90)
-    e = exec_schedule(b, rec["clients"], rec["steps"])
+    cell, mode = cell_for(rec.get("build", ""))
+    b = build(cell, mode, "replay")
+    e = exec_schedule(b, rec)
     if e is None:
         print("check.py: replay could not execute", file=sys.stderr)
         return 2
-    print(f"replay [{cell_name(cell)}]: " + " ; ".join(f"c{s['client']}:{s['op']}({s['a']},{s['b']})" for s in rec["steps"]))
+    print(f"replay [{cell_name(cell, mode)}]: {describe(rec)}")
     print(f"  isolated={e['isolated']}  observed={e['observed']}  (recorded isolated={rec['isolated']} observed={rec['observed']})")
     if e["differs"]:
         same = e["observed"] == rec["observed"] and e["isolated"] == rec["isolated"]
-        print(f"  reproduces: the last call's result depends on its history{'' if same else ' (different bits than recorded)'}")
+        print(f"  reproduces: the victim's result is not its isolated result{'' if same else ' (different bits than recorded)'}")
         print(f"VIOLATION property={PROPERTY} replay={path}")
         return 1
-    print("  does not reproduce on this tree: the last call returns its isolated bits")
+    print("  does not reproduce on this tree: the victim returns its isolated bits")
     return 0
 
 
 def run_determinism():
-    """Same seeds, different worker splits, fresh processes: per-cell digests must be identical."""
-    cell = CELLS["quick"][0]
-    b = build(cell, 0)
-    base, n = 777 * 10**10, 6000
-    digests = []
-    for workers in (1, 3, 8, 16):
-        per = n // workers
-        spans = [(base + w * per, per if w < workers - 1 else n - per * (workers - 1)) for w in range(workers)]
-        with ThreadPoolExecutor(max_workers=workers) as ex:
-            res = list(ex.map(lambda s: scan(b, s[0], s[1], os.devnull), spans))
-        d = sum(int(r[2]["digest"], 16) for r in res) % 2**64
-        digests.append(d)
-        print(f"  workers={workers:2d}: digest=0x{d:016x} runs={sum(r[2]['runs'] for r in res)}")
-    ok = len(set(digests)) == 1
-    print("determinism:", "OK (identical digests)" if ok else "FAILED")
+    """Same seeds, different worker splits, fresh processes: digests (over every result of every run) must be identical."""
+    ok = True
+    for cell, mode, n in ((G20, "serial", 6000), (G20, "fine", 1600)):
+        b = build(cell, mode, "det_" + mode)
+        base = 777 * 10**10
+        digests = []
+        for workers in (1, 3, 8, 16):
+            per = n // workers
+            spans = [(base + w * per, per if w < workers - 1 else n - per * (workers - 1)) for w in range(workers)]
+            with ThreadPoolExecutor(max_workers=workers) as ex:
+                res = list(ex.map(lambda s: scan(b, mode, s[0], s[1], os.devnull), spans))
+            d = sum(int(r[2]["digest"], 16) for r in res) % 2**64
+            tr = sum(r[2]["preemptions"] for r in res)
+            digests.append((d, tr))
+            print(f"  {mode:6s} workers={workers:2d}: digest=0x{d:016x} runs={sum(r[2]['runs'] for r in res)} preemptions={tr}")
+        ok = ok and len(set(digests)) == 1
+    print("determinism:", "OK (identical digests and decision counts)" if ok else "FAILED")
     return 0 if ok else 2
 
 
